@@ -56,13 +56,12 @@ class AccessToken(access_token.AccessToken):
             "skew": _context.clock_skew,
         }
 
-        _reg_resp = _context.registration_response
-        if _reg_resp:
-            for attr, param in IDT2REG.items():
-                try:
-                    kwargs[attr] = _reg_resp[param]
-                except KeyError:
-                    pass
+        # What was registered, dynamically or statically (then it is what the client will use)
+        _reg_resp = _context.registration_response or {}
+        for attr, param in IDT2REG.items():
+            _val = _reg_resp.get(param) or _context.claims.get_usage(param)
+            if _val:
+                kwargs[attr] = _val
 
         try:
             kwargs["allow_missing_kid"] = _context.allow["missing_kid"]
